@@ -289,6 +289,15 @@ def gen_page(rng, *, nrow=None, paper=None, placements=True, borders=True, col_w
         if rng.random() < 0.6:
             kw["margin"] = [round(rng.uniform(0.3, 1.6), rng.choice([1, 2, 3])) if rng.random() < 0.7
                             else half_twip(0.3, 1.6) for _ in range(6)]
+            q = rng.random()
+            if q < 0.15:
+                # the four page margins equal, header / footer distance different
+                kw["margin"] = [kw["margin"][0]] * 4 + kw["margin"][4:]
+            elif q < 0.25:
+                kw["margin"] = [kw["margin"][0]] * 6
+            elif q < 0.35:
+                kw["margin"] = [kw["margin"][0], kw["margin"][0], kw["margin"][2], kw["margin"][2],
+                                kw["margin"][4], kw["margin"][4]]
         kw["col_width"] = round(min(w - 1.0, rng.uniform(2.0, 12.0)), 2)
     if col_width is not None:
         kw["col_width"] = col_width
@@ -308,7 +317,7 @@ def gen_page(rng, *, nrow=None, paper=None, placements=True, borders=True, col_w
     return kw
 
 
-TEXT_FORMATS = ["", "b", "i", "bi", "u", "s", "bu", "^", "_", "ib"]
+TEXT_FORMATS = ["", "b", "i", "bi", "u", "s", "bu", "^", "_", "ib", "biu", "ubi", "bb", "si"]
 
 
 def scalar_attr(rng, name, half_points=False, color_pool=None):
